@@ -31,3 +31,9 @@ pub const MESSAGE_TERMINATOR: u8 = 0;
 // Data types
 //
 pub const _OID_INT8: i32 = 20; // bigint
+
+// Message size limits, the same ones PostgreSQL applies:
+// MAX_STARTUP_PACKET_LENGTH, PQ_SMALL_MESSAGE_LIMIT and PQ_LARGE_MESSAGE_LIMIT.
+pub const MAX_STARTUP_PACKET_LENGTH: i32 = 10_000;
+pub const MAX_PASSWORD_MESSAGE_LENGTH: i32 = 10_000;
+pub const MAX_MESSAGE_LENGTH: i32 = 0x3fff_fffe;
